@@ -5,6 +5,7 @@
 import MF.Model.Lexer
 import MF.Model.File
 import MF.Model.Split
+import MF.Model.Quote
 open MF MF.Lex
 
 def hx (b : Bytes) : String := if b.isEmpty then "-" else toHex b
@@ -41,6 +42,20 @@ def handle (line : String) : String :=
     match ofHex? (if h == "-" then "" else h) with
     | some buf => lexRun buf (mode == "n") (buf.length + 2) Lex.init #[]
     | none => "BADREQ"
+  | ["QUOTE", h, np] =>
+    -- np: hex list of the non-printable runes (4 bytes big-endian each) among the runes of the input, as judged by Go
+    match ofHex? (if h == "-" then "" else h), ofHex? (if np == "-" then "" else np) with
+    | some buf, some npb =>
+      let rec runes : Bytes → List Nat
+        | a :: b :: c :: d :: t => (a.toNat * 16777216 + b.toNat * 65536 + c.toNat * 256 + d.toNat) :: runes t
+        | _ => []
+      let nps := runes npb
+      let isPrint := fun (r : Nat) => !nps.contains r
+      let qi := match Quote.quoteIdent isPrint buf with
+        | some x => hx x
+        | none => "CRASH"
+      s!"{hx (Quote.quoteString isPrint buf)} {hx (Quote.quoteBytes buf)} {qi}"
+    | _, _ => "BADREQ"
   | ["SPLIT", h] =>
     match ofHex? (if h == "-" then "" else h) with
     | some buf =>
